@@ -374,3 +374,167 @@ Proof.
   rewrite pub_seq_app in F. cbn [pub_seq] in F. rewrite Nat.eqb_refl in F.
   apply Forall_app in F as [_ F]. now inversion F.
 Qed.
+
+Lemma order_ok_model buf N st :
+  AllInv buf st -> uniq_pub_ids (hist_of N st) -> order_ok (hist_of N st) = true.
+Proof.
+  intros A U. pose proof (a_h _ _ A) as HI. unfold order_ok. apply forallb_forall. intros l Hl. cbn [hi_outs hist_of] in Hl.
+  apply in_map_iff in Hl as (x & <- & _). fold xout. apply order_list_intro.
+  intros i j sub e r sub' e' r' Hij Hi Hj Es. subst sub'.
+  destruct (nth_xout_event _ _ _ _ _ Hi) as [t Hi']. destruct (nth_xout_event _ _ _ _ _ Hj) as [t' Hj'].
+  destruct (two_copies buf N st x i j sub e t r e' t' r' A U Hij Hi' Hj') as (P & P' & HP & HoP & HP' & HoP' & Hnt & _).
+  destruct (pub_nth_In _ _ _ _ HP) as (HPin & HPc & _). destruct (pub_nth_In _ _ _ _ HP') as (HPin' & HPc' & _).
+  rewrite (pub_of_uniq _ P e U HPin HoP), (pub_of_uniq _ P' e' U HPin' HoP'). intro Ep.
+  destruct t as [p n1], t' as [p' n2]. cbn [fst snd] in *.
+  assert (Epp : p' = p) by congruence. rewrite Epp in *. clear Epp.
+  assert (Hle : (n1 <= n2)%nat).
+  { apply (pub_seq_le p (c_out (r_cs (i_s st) x)) (publisher_order_preserved buf _ x p (a_reach _ _ A)) i j sub e n1 sub e' n2 Hij).
+    - exact (nth_outs _ _ _ _ _ HI Hi').
+    - exact (nth_outs _ _ _ _ _ HI Hj'). }
+  assert (Hlt : (n1 < n2)%nat).
+  { destruct (Nat.eq_dec n1 n2) as [->|Nn]; [contradiction Hnt; reflexivity | lia]. }
+  exact (SSorted_nth_lt _ _ (pubs_of_sorted st p HI) _ _ _ _ Hlt HP HP').
+Qed.
+
+(* ------------------------------------------------------------------ *)
+(** * MUST NOT *)
+
+Lemma andl_true (a b : bool) : (a &&& b) = true <-> a = true /\ b = true.
+Proof. destruct a, b; cbn; intuition congruence. Qed.
+
+Lemma must_not_ok_model buf N st :
+  AllInv buf st -> (forall h, In h (i_hops st) -> wf_op (h_o h)) -> must_not_ok (hist_of N st) = true.
+Proof.
+  intros A Wf. pose proof (a_h _ _ A) as HI. unfold must_not_ok. apply forallb_forall. intros x Hx.
+  rewrite hist_outs_len in Hx. apply in_seq in Hx. assert (Hx' : (x < N)%nat) by lia.
+  rewrite (outs_of_hist _ _ _ Hx'), ops_of_hist. apply forallb_forall. intros ms Hms.
+  apply in_map_iff in Hms as ([m r] & <- & Hin). unfold xout. cbn [fst snd].
+  destruct m as [| | |sub e t]; try reflexivity. cbn [xmsg_of].
+  (* the copy and its justification *)
+  pose proof (a_o _ _ A x) as O. rewrite Forall_forall in O. destruct (O _ Hin) as (P0 & HP0 & _ & Hbr). cbn [fst snd] in *.
+  assert (Hev : In (MEvent sub e t) (evs (r_cs (i_s st) x))).
+  { apply evs_out_incl. apply filter_In. split; [|reflexivity]. destruct (h_outs st HI x) as [<- _].
+    change (MEvent sub e t) with (fst (MEvent sub e t, r)). now apply in_map. }
+  destruct (a_c _ _ A x sub e t (or_introl Hev)) as (P & q & fs & HP & HoP & Hq & Hcq & Hoq & Hm & Hlt & Hk).
+  assert (P0 = P) by (unfold pub_nth in *; congruence). subst P0.
+  destruct (pub_nth_In _ _ _ _ HP) as (HPin & _ & _).
+  unfold justified. apply existsb_exists. exists (P, e). split; [apply In_pubs; auto|].
+  rewrite str_eqb_refl. assert (Ee : event_eqb e e = true) by (now apply event_eqb_eq). rewrite Ee.
+  assert (Er : h_b P <? r = true) by (now apply Z.ltb_lt). rewrite Er.
+  apply existsb_exists. exists q. split; [apply xops_In; auto|]. rewrite Hoq, str_eqb_refl, Hlt.
+  assert (Ems : matches_specb e fs = true).
+  { rewrite <- Hm. symmetry. apply sub_matches_spec.
+    - pose proof (Wf P HPin) as W. now rewrite HoP in W.
+    - pose proof (Wf q Hq) as W. now rewrite Hoq in W. }
+  rewrite Ems. apply negb_true_iff. destruct (existsb _ (xops x (i_hops st))) eqn:Ex; [|reflexivity]. exfalso.
+  apply existsb_exists in Ex as (k & Hkin & Hc). apply xops_In in Hkin as [Hkin Hck].
+  apply andl_true in Hc as [Hc Hc3]. apply andl_true in Hc as [Hc1 Hc2]. apply Z.ltb_lt in Hc1.
+  rewrite effect_known_effk, hist_ops in Hc3. rewrite (Hk k Hkin Hck Hc1 Hc2) in Hc3. discriminate.
+Qed.
+
+(* ------------------------------------------------------------------ *)
+(** * MUST *)
+
+Lemma or3_intro (c d m : bool) : (c = true -> d = true \/ m = true) -> (negb c ||| d ||| m) = true.
+Proof. destruct c, d, m; cbn; intuition congruence. Qed.
+
+Lemma count_occ_b_map {A B} (f : B -> bool) (g : A -> B) l : count_occ_b f (List.map g l) = count_occ_b (fun a => f (g a)) l.
+Proof. induction l as [|a l IH]; cbn; [reflexivity|]. now rewrite IH. Qed.
+
+Lemma count_occ_b_ext {A} (f g : A -> bool) l : (forall a, f a = g a) -> count_occ_b f l = count_occ_b g l.
+Proof. intro E. induction l as [|a l IH]; cbn; [reflexivity|]. now rewrite E, IH. Qed.
+
+(** the core of MUST: a REQ that had ended before the publication began,
+    whose filters match and which the client left alone until the
+    publication ended, got its copy — or the connection's queue was full, or
+    the connection has disconnected since *)
+Lemma must_core buf N st P e q sub fs qd pd :
+  AllInv buf st -> quiescent (i_s st) ->
+  (forall h, In h (i_hops st) -> (h_c h < N)%nat /\ wf_op (h_o h)) ->
+  In P (i_hops st) -> h_o P = OEvent e -> h_d P = Some pd ->
+  In q (i_hops st) -> h_o q = OReq sub fs -> h_d q = Some qd -> qd < h_b P ->
+  matches_specb e fs = true ->
+  (forall k, In k (i_hops st) -> h_c k = h_c q -> h_b q < h_b k -> op_ends (h_o k) sub = true ->
+             lt_opt (h_b k) (Some pd) = false) ->
+  has_disc (hist_of N st) (h_c q) = true \/ delivered (hist_of N st) (h_c q) sub e = true \/
+  may_be_full (hist_of N st) (h_c q) P = true.
+Proof.
+  intros A Qs Wf HPin HoP HdP Hq Hoq Hdq C1 C2 Prem.
+  pose proof (a_h _ _ A) as HI. pose proof (a_reach _ _ A) as R.
+  destruct (Wf q Hq) as [HxN Wq]. rewrite Hoq in Wq. destruct (Wf P HPin) as [_ WP]. rewrite HoP in WP.
+  assert (Hm : sub_matches e fs = true) by (rewrite <- C2; now apply sub_matches_spec).
+  assert (HPp : In P (pubs_of (h_c P) (i_hops st))).
+  { apply filter_In. split; [assumption|]. now rewrite Nat.eqb_refl, HoP. }
+  apply In_nth_error in HPp as [n HP].
+  rewrite <- HdP in Prem.
+  destruct (a_m _ _ A P q (h_c P) n e sub fs qd HP HoP Hq Hoq Hdq C1 Hm Prem) as [_ C].
+  destruct (has_disc (hist_of N st) (h_c q)) eqn:Hdisc; [now left | right].
+  assert (Nd : ~ In ODisc (c_ops (r_cs (i_s st) (h_c q)))).
+  { intro X. apply (has_disc_spec N st (h_c q) HI) in X. congruence. }
+  assert (Alive : c_dead (r_cs (i_s st) (h_c q)) = false).
+  { destruct (c_dead (r_cs (i_s st) (h_c q))) eqn:Ed; [|reflexivity]. exfalso. apply Nd.
+    now apply (DDInv_reachable buf _ R). }
+  destruct (Qs (h_c q)) as [_ Hq0]. destruct (Hq0 Alive) as [Hq1 Hh1].
+  destruct C as [[G|G]|G]; [congruence | | | contradiction].
+  - (* the copy is in the flow, hence received *)
+    left. apply In_flow in G. rewrite Hq1, Hh1 in G. destruct G as [G|[G|[]]]; [|discriminate].
+    destruct (h_outs st HI (h_c q)) as [Eo _]. rewrite <- Eo in G. apply in_map_iff in G as ([m r] & Em & Gin). cbn in Em. subst m.
+    unfold delivered. rewrite (outs_of_hist _ _ _ HxN). apply existsb_exists.
+    exists (xout (MEvent sub e (h_c P, n), r)). split; [now apply in_map|]. cbn. now rewrite !str_eqb_refl.
+  - (* the copy was dropped: buflen others were waiting *)
+    right. destruct (a_f _ _ A (h_c q) sub e (h_c P, n) Alive G) as (P2 & HP2 & _ & Hcnt). cbn [fst snd] in HP2.
+    assert (P2 = P) by (unfold pub_nth in *; congruence). subst P2.
+    unfold may_be_full. rewrite HdP. apply Z.leb_le. cbn [hi_buf hist_of]. apply Nat2Z.inj_le.
+    unfold cntf in Hcnt. unfold hand_list in Hcnt. rewrite Hq1, Hh1 in Hcnt. cbn [app count_occ_b] in Hcnt.
+    rewrite Nat.add_0_r in Hcnt. eapply Nat.le_trans; [exact Hcnt|].
+    rewrite (outs_of_hist _ _ _ HxN), count_occ_b_map. apply Nat.eq_le_incl. apply count_occ_b_ext.
+    intros [m r]. unfold xout. cbn [fst snd]. destruct m as [| | |s2 e2 t2]; try reflexivity.
+    cbn [xmsg_of fullpred]. rewrite HdP, pub_begin_eq, hist_ops. cbn [lt_opt].
+    destruct (h_b P <? r); reflexivity.
+Qed.
+
+Lemma must_ok_model buf N st :
+  AllInv buf st -> quiescent (i_s st) ->
+  (forall h, In h (i_hops st) -> (h_c h < N)%nat /\ wf_op (h_o h)) ->
+  must_ok (hist_of N st) = true.
+Proof.
+  intros A Qs Wf.
+  unfold must_ok. apply forallb_forall. intros [P e] Hin. apply In_pubs in Hin as [HPin HoP]. rewrite hist_ops in HPin.
+  destruct (h_d P) as [pd|] eqn:HdP; [|reflexivity].
+  destruct (is_sentinel e); [reflexivity|].
+  apply forallb_forall. intros q Hq. rewrite hist_ops in Hq.
+  destruct (h_o q) as [sub fs| | | |] eqn:Hoq; try reflexivity. destruct (h_d q) as [qd|] eqn:Hdq; [|reflexivity].
+  apply or3_intro. intro C.
+  apply andl_true in C as [C C4]. apply andl_true in C as [C C3]. apply andl_true in C as [C1 C2].
+  apply Z.ltb_lt in C1. apply negb_true_iff in C3. apply negb_true_iff in C4.
+  assert (Prem : forall k, In k (i_hops st) -> h_c k = h_c q -> h_b q < h_b k -> op_ends (h_o k) sub = true ->
+                 lt_opt (h_b k) (Some pd) = false).
+  { intros k Hk Hck Hb He. cbn.
+    rewrite ops_of_hist in C4.
+    destruct (h_b k <? pd) eqn:Ek; [|reflexivity]. exfalso.
+    assert (X : existsb (fun k0 : hop => (h_b q <? h_b k0) &&& op_ends (h_o k0) sub &&& (h_b k0 <? pd)) (xops (h_c q) (i_hops st)) = true).
+    { apply existsb_exists. exists k. split; [apply xops_In; auto|].
+      apply Z.ltb_lt in Hb. now rewrite Hb, He, Ek. }
+    congruence. }
+  destruct (must_core buf N st P e q sub fs qd pd A Qs Wf HPin HoP HdP Hq Hoq Hdq C1 C2 Prem) as [D|[D|D]]; [congruence | now left | now right].
+Qed.
+
+(* ------------------------------------------------------------------ *)
+(** * The oracle never raises a false alarm on the model *)
+
+Theorem model_satisfies_timed_oracle buf N tr :
+  conns_below N tr -> Forall wf_label tr ->
+  quiescent (i_s (irun (i_init buf) tr)) ->
+  uniq_pub_ids (model_history buf N tr) ->
+  timed_oracle (model_history buf N tr) = true.
+Proof.
+  intros HN Hwf Qs U. unfold model_history in *.
+  pose proof (AllInv_irun buf _ tr (AllInv_init buf)) as A.
+  assert (Wf : forall h, In h (i_hops (irun (i_init buf) tr)) -> (h_c h < N)%nat /\ wf_op (h_o h))
+    by (intros h Hin; eapply hops_conns_wf; eassumption).
+  unfold timed_oracle.
+  rewrite (replies_ok_model buf N _ A Qs), (drained_ok_model N _).
+  rewrite (must_not_ok_model buf N _ A (fun h Hin => proj2 (Wf h Hin))).
+  rewrite (must_ok_model buf N _ A Qs Wf).
+  rewrite (once_ok_model buf N _ A U), (order_ok_model buf N _ A U). reflexivity.
+Qed.
